@@ -13,6 +13,7 @@ def write(pid, mod, tier, seed, merged, wall, known_hits, n_unknown, reasons):
         "samples": merged.samples[:12] or ["<none recorded>"],
         "counters": dict(sorted(merged.ctr.items())),
         "maxima": merged.maxima,
+        "library_functions_reached": sorted(merged.reached),
         "known_finding_hits": known_hits,
         "violation_counts_by_key": {k or "<unclassified>": n for k, n in merged.nviol.items()},
         "inconclusive_reasons": reasons[:10],
